@@ -1453,6 +1453,19 @@ class SyncObj(object):
         else:
             data = None
         cluster = self.__otherNodes | {self.__selfNode}
+        if self.__conf.dynamicMembershipChange:
+            # The snapshot describes the state at lastApplied: leave out what membership entries
+            # after that position (in the log, possibly never committed) have changed.
+            for entry in reversed(self.__getEntries(self.__raftLastApplied + 1)):
+                clusterChangeRequest = self.__parseChangeClusterRequest(entry[0])
+                if clusterChangeRequest is not None:
+                    requestNode = clusterChangeRequest[2] if len(clusterChangeRequest) >= 3 else clusterChangeRequest[1]
+                    if not isinstance(requestNode, Node):
+                        requestNode = self.__nodeClass(requestNode)
+                    if clusterChangeRequest[0] == 'add':
+                        cluster = cluster - {requestNode}
+                    elif clusterChangeRequest[0] == 'rem':
+                        cluster = cluster | {requestNode}
         self.__serializer.serialize((data, lastAppliedEntries[1], lastAppliedEntries[0], cluster), lastAppliedEntries[0][1])
 
     def __loadDumpFile(self, clearJournal):
